@@ -77,19 +77,19 @@ pub fn gen(rng: &mut ChaCha20Rng, n: usize, thorough: bool) -> Vec<Case> {
     let prof = own_mode();
 
     // ------------------------------------------------------------------ the refutations, re-derived on every run
-    out.push(mk(format!("C10 hrp {}", strhex("a1")), &["ep:SegwitHrpstring::new_bech32", "src:finding-F1"], true));
-    out.push(mk(format!("C10 hrp {}", strhex("tex1")), &["ep:SegwitHrpstring::new_bech32", "src:finding-F1"], true));
-    out.push(mk("C10 xpub 00000000 1/2/3 00000000 9".into(), &["ep:Pset::merge-xpub", "src:finding-F2"], true));
-    out.push(mk("C10 blindsel f".into(), &["ep:Transaction::blind", "src:finding-F12"], true));
-    out.push(mk("C10 blindsel uf".into(), &["ep:Transaction::blind", "src:finding-F12"], true));
-    out.push(mk("C10 sbuilder n".into(), &["ep:TaprootBuilder::finalize-serde", "src:finding-F16"], true));
+    out.push(mk(format!("C10 hrp {}", strhex("a1")), &["ep:SegwitHrpstring::new_bech32", "src:fixed-F1"], true));
+    out.push(mk(format!("C10 hrp {}", strhex("tex1")), &["ep:SegwitHrpstring::new_bech32", "src:fixed-F1"], true));
+    out.push(mk("C10 xpub 00000000 1/2/3 00000000 9".into(), &["ep:Pset::merge-xpub", "src:fixed-F2"], true));
+    out.push(mk("C10 blindsel f".into(), &["ep:Transaction::blind", "src:fixed-F12"], true));
+    out.push(mk("C10 blindsel uf".into(), &["ep:Transaction::blind", "src:fixed-F12"], true));
+    out.push(mk("C10 sbuilder n".into(), &["ep:TaprootBuilder::finalize-serde", "src:fixed-F16"], true));
     out.push(mk(format!("C10 fees {} 3:{},3:1", prof, u64::MAX), &["ep:Transaction::fee_in", "src:finding-F17"], true));
     out.push(mk(format!("C10 fees {} 3:{},4:7,3:{}", prof, 1u64 << 63, 1u64 << 63), &["ep:Transaction::fee_in", "src:finding-F17"], true));
 
     {   // F18: a valid commitment / generator, handed over as a shorter slice of the same buffer
         let c = rcommitment(rng).serialize(); let g = rgenerator(rng).serialize();
         for (k, buf, ok) in [("v", &c[..], true), ("pv", &c[..], true), ("a", &g[..], true), ("pa", &g[..], true), ("v", &g[..], false), ("a", &c[..], false)] {
-            for len in [33usize, 32, 1, 0] { out.push(mk(format!("C10 commit {} {} {} {}", k, len, ok as u8, hex(buf)), &["ep:from_commitment", "src:finding-F18"], true)); }
+            for len in [33usize, 32, 1, 0] { out.push(mk(format!("C10 commit {} {} {} {}", k, len, ok as u8, hex(buf)), &["ep:from_commitment", "src:fixed-F18"], true)); }
         }
         // and through the PSET decoder: an output whose value commitment field is empty
         let mut p = Pset::new_v2();
@@ -102,7 +102,7 @@ pub fn gen(rng: &mut ChaCha20Rng, n: usize, thorough: bool) -> Vec<Case> {
         if let Some(pos) = ser.windows(pat.len()).position(|w| w == &pat[..]) {
             for keep in [0usize, 1, 32] {
                 let mut m = ser[..pos + pat.len() - 1].to_vec(); m.push(keep as u8); m.extend(&ser[pos + pat.len()..pos + pat.len() + keep]); m.extend(&ser[pos + pat.len() + 33..]);
-                out.push(mk(format!("C10 x-pset {}", hex(&m)), &["ep:explore-pset-deserialize", "src:finding-F18"], true));
+                out.push(mk(format!("C10 x-pset {}", hex(&m)), &["ep:explore-pset-deserialize", "src:fixed-F18"], true));
             }
         }
     }
@@ -113,6 +113,11 @@ pub fn gen(rng: &mut ChaCha20Rng, n: usize, thorough: bool) -> Vec<Case> {
     for pat in ["empty", "null"] { out.push(mk(format!("C10 x-serde-taptree {}", pat), &["ep:explore-serde-TapTree", "src:finding-F25"], true)); }
     out.push(mk("C10 x-cbor-params a16c6665647065677363726970749bffffffffffffffff".into(), &["ep:explore-serde-dynafed", "src:finding-F26"], true));
     out.push(mk("C10 x-cbor-params a16c66656470656773637269707483010203".into(), &["ep:explore-serde-dynafed", "src:fixed"], true));
+    {   // F27: CBOR [2, h'<n bytes of a valid commitment>'] for n = 33 (fine) and shorter
+        let c = rcommitment(rng).serialize();
+        for n in [33usize, 32, 16, 1] { let mut b = vec![0x82, 0x02]; if n < 24 { b.push(0x40 + n as u8); } else { b.push(0x58); b.push(n as u8); } b.extend(&c[..n]);
+            out.push(mk(format!("C10 x-cbor-commit {}", hex(&b)), &["ep:explore-serde-confidential", if n == 33 { "src:fixed" } else { "src:finding-F27" }], true)); }
+    }
     // PSET count caps: 10 000 inputs / outputs promised, nothing behind (the reservation happens before the first map is read)
     for (cin, cout) in [(10_000u64, 0u64), (0, 10_000), (10_000, 10_000), (10_001, 0), (0, 10_001), (0xffff_ffff, 0)] {
         let mut b = b"pset\xff".to_vec();
@@ -279,7 +284,7 @@ pub fn gen(rng: &mut ChaCha20Rng, n: usize, thorough: bool) -> Vec<Case> {
         };
         let (f2, f1) = (pk!(rng, ["00000000", "01020304"]), pk!(rng, ["00000000", "01020304"]));
         let f2_class = p1.len() < p2.len() && p2[p2.len() - p1.len()..] != p1[..];
-        out.push(mk(format!("C10 xpub {} {} {} {}", f2, path_text(&p2), f1, path_text(&p1)), &["ep:Pset::merge-xpub", if f2_class { "src:generated-F2-class" } else { "src:generated" }], true));
+        out.push(mk(format!("C10 xpub {} {} {} {}", f2, path_text(&p2), f1, path_text(&p1)), &["ep:Pset::merge-xpub", if f2_class { "src:generated-former-F2-class" } else { "src:generated" }], true));
     }
 
     // ------------------------------------------------------------------ Transaction::blind output selection (slow: real range proofs)
